@@ -277,7 +277,7 @@ func run(c *Case) error {
 type hangErr string
 
 func (h hangErr) Error() string { return string(h) }
-func hang(s string) error      { return hangErr(s) }
+func hang(s string) error       { return hangErr(s) }
 
 func clip(b []byte) []byte {
 	if len(b) > 80 {
